@@ -132,6 +132,9 @@ EDITS = {
         ("st03", ST + "tree.rs", "DELAY_ADDITIONAL_OFFSET as u64 + *len", "*len", "verus", "state_tree"),
     ],
     "C12": [
+        ("br01", "crates/lib/mimium-lang/src/compiler/bytecodegen.rs", "                Some(VmInstruction::BoxRelease(src_reg))", "                Some(VmInstruction::BoxClone(src_reg))", "verus", "backend_state"),
+        ("br02", "crates/lib/mimium-lang/src/compiler/wasmgen.rs", "                func.instruction(&W::Call(self.rt.box_release));", "                func.instruction(&W::Call(self.rt.box_clone));", "verus", "backend_state"),
+        ("br03", "crates/lib/mimium-lang/src/compiler/bytecodegen.rs", "                Some(VmInstruction::ReleaseUserSum(value_reg, size, type_idx))", "                Some(VmInstruction::ReleaseUserSum(value_reg, size, type_idx.saturating_sub(1)))", "verus", "backend_state"),
         ("hw01", "crates/lib/mimium-lang/src/runtime/wasm.rs", "    let heap_idx: heap::HeapIdx = unsafe { std::mem::transmute::<u64, heap::HeapIdx>(obj as u64) };\n    heap::heap_release(&mut state.heap, heap_idx);\n}\n\nfn box_store_host", "    let heap_idx: heap::HeapIdx = unsafe { std::mem::transmute::<u64, heap::HeapIdx>(obj as u64) };\n    if state.heap.len() > 1 { heap::heap_release(&mut state.heap, heap_idx); }\n}\n\nfn box_store_host", "verus", "heap"),
         ("hw02", "crates/lib/mimium-lang/src/runtime/wasm.rs", "    let heap_obj = heap::HeapObject::new(size_words as usize);", "    let heap_obj = heap::HeapObject::new((size_words as usize).max(1));", "verus", "heap"),
         ("lr01", "crates/lib/mimium-lang/src/compiler/mirgen.rs", "                                    ctx.insert_clone_recursively(res.clone(), effective_rt);\n                                    let _ = ctx", "                                    let _ = ctx", "verus", "mirgen_rc"),
